@@ -259,6 +259,23 @@ func (e *Engine) intConst(t types.Type, v string) string {
 }
 
 // wrap normalises a mathematical integer result into the range of t.
+// wrap1 normalises the sum or difference of two in-range values: it is off
+// by at most one modulus, so an if-then-else is exact (and much easier for
+// the solvers than mod).
+func (e *Engine) wrap1(x string, t types.Type) string {
+	b, ok := t.Underlying().(*types.Basic)
+	if !ok || e.bv {
+		return x
+	}
+	bits := intBits(b)
+	m := pow2[bits]
+	if b.Info()&types.IsUnsigned != 0 {
+		return ite(sx(">=", x, m), sx("-", x, m), ite(sx("<", x, "0"), sx("+", x, m), x))
+	}
+	h := pow2[bits-1]
+	return ite(sx(">=", x, h), sx("-", x, m), ite(sx("<", x, "(- "+h+")"), sx("+", x, m), x))
+}
+
 func (e *Engine) wrap(x string, t types.Type) string {
 	b, ok := t.Underlying().(*types.Basic)
 	if !ok || e.bv {
